@@ -65,10 +65,11 @@ def main(argv) -> int:
     budget = None
     if a.tier == "thorough" and a.runs is None:
         budget = a.budget if a.budget is not None else cfg["thorough_s"]
-    mod = importlib.import_module(cfg["mod"])
     minimise = None
-    if not a.no_minimise and hasattr(mod, "minimise"):
-        minimise = mod.minimise
+    if not a.no_minimise:
+        from . import minimise as mini
+
+        minimise = lambda r, o: mini.minimise(cfg["mod"], r, o, budget_s=300 if a.tier == "quick" else 600)  # noqa: E731
     return campaign.campaign(pid, cfg["mod"], a.tier, a.seed, n_runs, a.workers, budget, opts, cfg.get("rule", RULE), cfg.get("assume", ASSUME),
                              minimise=minimise)
 
